@@ -656,12 +656,27 @@ func c01Scenarios(thorough bool) []*engine.SScenario {
 	return scs
 }
 
+// c01Drivers: a write that waits for approval is answered exactly once as well — with the outcome of the verdicts
+// it collected, at the timeout, or not at all when its connection goes — over whole histories of writes, verdicts,
+// timeouts, disconnects and reconnects (after which the peer's message counters start again).
+func c01Drivers(thorough bool) []*engine.HDriver {
+	d := apDriver(2, 1, false, false)
+	d.Name = "results of writes pending approval: " + d.Name
+	if thorough {
+		d2 := apDriver(2, 2, false, false)
+		d2.Name = "results of writes pending approval: " + d2.Name
+		return []*engine.HDriver{d, d2}
+	}
+	return []*engine.HDriver{d}
+}
+
 func init() {
 	engine.Register(&engine.Check{
 		ID:        "C01",
 		NeedsRace: true,
 		Scenarios: func(c *engine.Ctx) []*engine.SScenario { return c01Scenarios(c.Thorough) },
 		Families:  func(c *engine.Ctx) []*engine.IFamily { return c01Families(c.Thorough) },
+		Drivers:   func(c *engine.Ctx) []*engine.HDriver { return c01Drivers(c.Thorough) },
 		Run: func(c *engine.Ctx) *engine.Report {
 			rep := &engine.Report{Level: "model_checking", Coverage: map[string]any{}}
 			engine.RunFamilies(c, c01Families(c.Thorough), rep)
@@ -669,6 +684,10 @@ func init() {
 			rep.Coverage["states"] = 2
 			rep.Coverage["transitions"] = int(ev)
 			rep.Coverage["traces_validated_against_impl"] = int(ev)
+			for _, d := range c01Drivers(c.Thorough) {
+				st := engine.RunHistories(c, d, 64, rep)
+				engine.AddHCoverage(rep, d.Name, st, len(d.Alphabet))
+			}
 			mergeS(c, rep, c01Scenarios(c.Thorough), engine.SPlan{Bounds: boundsFor(c, []int{0, 1, 2}, []int{0, 1, 2, 3}), Race: true, RaceMaxBound: 1, RaceFuncs: []string{"Sender", "ProcessCmd", "HandleMessage", "processRead", "processWrite"}})
 			rep.Assumptions = []string{"don't-care zones: acceptance of reply/notify addressed to server features (structural rules only), the response to a call of subscription/binding data, Generic features; only datagrams with classifier reply/result are responses (requests and notifications the stack sends on its own are judged by C03/C08)"}
 			return rep
